@@ -77,12 +77,15 @@ pub fn data_decls() -> Vec<DataDecl> {
 pub const OBJ: usize = 0;
 pub const STREAM: usize = 1;
 pub const OBJ_REV: usize = 2;
+/// shares the destructor name `.get` with OBJ, at a different position/rank
+pub const CELL: usize = 3;
 
 pub fn codata_decls() -> Vec<CodataDecl> {
     vec![
         CodataDecl { name: "Obj", recursive: false, dtors: vec![(".get", ret(VT::Int)), (".app", func(VT::Int, ret(VT::Int))), (".flag", ret(VT::Data(BOOL)))] },
         CodataDecl { name: "Stream", recursive: true, dtors: vec![(".hd", ret(VT::Int)), (".tl", CT::Codata(STREAM))] },
         CodataDecl { name: "ObjR", recursive: false, dtors: vec![(".flag", ret(VT::Data(BOOL))), (".app", func(VT::Int, ret(VT::Int))), (".get", ret(VT::Int))] },
+        CodataDecl { name: "Cell", recursive: false, dtors: vec![(".get", ret(VT::Int)), (".hop", ret(VT::Int)), (".zip", ret(VT::Int))] },
     ]
 }
 
